@@ -153,6 +153,32 @@ Proof.
 Qed.
 Print Assumptions swap_clobbers_declared.
 
+(* The C statements of fiber_context_swap that precede the template (generated
+   table swap_prologue: asserts, operand declarations, split-stack and tsan
+   bookkeeping, prefetches - the translator rejects any other statement shape)
+   are all executed UNCONDITIONALLY, and under FIBER_STACK_SPLIT the
+   bookkeeping is exactly __splitstack_getcontext(from) followed by
+   __splitstack_setcontext(to): the outgoing context's split-stack state is
+   captured on EVERY switch-out.  (Syntactic match only; the split-stack
+   runtime itself is outside the model - the large-frame scenarios of
+   rt/h_ctx.c exercise it.) *)
+Theorem swap_prologue_unconditional :
+  forallb pc_uncond swap_prologue = true /\
+  split_calls = [(GSplit, KSplitGetFrom); (GSplit, KSplitSetTo)].
+Proof. exact prologue_ok. Qed.
+Print Assumptions swap_prologue_unconditional.
+
+(* Shape of the stack management calls (syntactic; released-exactly-once is
+   checked by the harness, see the header): fiber_context_init calls
+   fiber_context_alloc_stack once, before it touches the stack pointer, and
+   fails if it fails; fiber_context_destroy's whole body is
+   `if (ctx && !ctx->is_thread) { ... }` and calls fiber_free_stack once. *)
+Theorem stack_calls_shape :
+  init_alloc_calls = 1%nat /\ init_alloc_first = true /\
+  destroy_free_calls = 1%nat /\ destroy_guard_not_thread = true.
+Proof. exact stack_calls_ok. Qed.
+Print Assumptions stack_calls_shape.
+
 (* ---- non-vacuity: a concrete two-context ping-pong, by vm_compute ---- *)
 Definition ex_la (l : nat) : Z := 7000 + Z.of_nat l.
 (* context 0 (thread): stack [16384, 40960), ctx_stack_pointer at 256.
